@@ -28,7 +28,7 @@ P_TRANSACT = {
     "_last_fee": ("C07",), "_net_flows": ("C03", "C07"), "_needupdate": ("C01", "C08"), "stale": ("C08", "C01"), "raises": ("C10",), "*": ("C07", "C08"),
 }
 P_SECUPD = {
-    "_value": ("C01", "C02"), "_notl_value": ("C01", "C17"), "_price": ("C01", "C04"), "now": ("C08",), "_positions": ("C01", "C08", "C18"),
+    "_value": ("C01", "C02"), "_notl_value": ("C01", "C17"), "_price": ("C01", "C04", "C10"), "now": ("C08",), "_positions": ("C01", "C08", "C18"),
     "_values": ("C01", "C08"), "_notl_values": ("C01", "C17", "C08"), "_outlays": ("C07", "C18", "C08"), "_outlay": ("C07",),
     "_needupdate": ("C01", "C08", "C02"), "_last_pos": ("C08",), "_bidoffer": ("C07", "C04"), "_bidoffer_paid": ("C07",), "_bidoffers_paid": ("C07", "C08"),
     "raises": ("C10",), "_coupon": ("C17", "C02"), "_holding_cost": ("C17", "C02"), "_capital": ("C17", "C02"), "_coupon_income": ("C17", "C08"),
